@@ -426,11 +426,21 @@ func crossedFieldCopies(p *Program, prefixes ...string) (n int, bad []string, po
 				}
 				n++
 				F, G := dst.Field(fa.Field).Name(), src.Field(g).Name()
-				if F == G || types.Identical(src, dst) {
+				if strings.EqualFold(F, G) || types.Identical(src, dst) {
 					continue // a clamp inside one object (a.X = a.Y) is not a pass-through copy
 				}
 				tF, srcHasF := has(src, F)
+				if !srcHasF {
+					tF, srcHasF = has(src, strings.ToLower(F[:1])+F[1:]) // the unexported twin (blockchainPubkey for BlockchainPubkey)
+				}
 				tG, dstHasG := has(dst, G)
+				if srcHasF && types.Identical(tF, src.Field(g).Type()) && strings.HasPrefix(name, "skycoin.") {
+					// start-up plumbing: the source object has a setting of exactly the destination's name and type,
+					// yet another setting is copied
+					bad = append(bad, fmt.Sprintf("%s: field %s is set from the configuration's %s although the configuration has a setting named %s", name, F, G, F))
+					pos = append(pos, in)
+					continue
+				}
 				if srcHasF && dstHasG && types.Identical(tF, src.Field(g).Type()) && types.Identical(tG, dst.Field(fa.Field).Type()) {
 					bad = append(bad, fmt.Sprintf("%s: field %s is set from the other object's %s although that object has a field %s", name, F, G, F))
 					pos = append(pos, in)
@@ -565,4 +575,18 @@ func loopAliasedAddrs(p *Program, prefixes ...string) (nLoops int, bad []ssa.Ins
 		}
 	}
 	return
+}
+
+// ruleNoCrossedConfig: the start-up plumbing (package skycoin and the component constructors) copies every
+// setting into the slot of the same name; no setting is taken from a sibling.
+func ruleNoCrossedConfig(r *Run, rule string) {
+	n, bad, pos := crossedFieldCopies(r.P, "skycoin.", "daemon.", "visor.", "api.", "wallet.")
+	r.Units["field-to-field copies inspected"] += n
+	for i, b := range bad {
+		r.Check(rule, "configuration copy: "+b, r.P.Pos(pos[i].Pos()), false, "a setting is taken from its sibling")
+	}
+	if n < 40 {
+		r.Fail(rule, "field-to-field copies", "", fmt.Sprintf("anchor-unresolved: %d copies found, hand-confirmed minimum is 40", n))
+	}
+	r.Pass(rule, "no configuration value is copied into a sibling's slot", "", fmt.Sprintf("%d field-to-field copies inspected", n))
 }
